@@ -71,8 +71,14 @@ func c06Single(c *Ctx, mem, twin *mon.Mem, pre z80.States, halted bool, k irqKin
 	if bad == "" && !accept {
 		// refused: nothing changes, request stays, the program instruction runs
 		// exactly as without a request (twin)
-		t := z80.CPU{States: pre, Memory: twin, HALT: halted}
+		var trc mon.RetCounter
+		thn, thi := trc.Handlers()
+		t := z80.CPU{States: pre, Memory: twin, HALT: halted, RETNHandler: thn, RETIHandler: thi}
 		t.Step()
+		if rc != trc {
+			fail("refused request changed the handler notifications of the program instruction")
+		}
+		rc = mon.RetCounter{} // the program instruction itself may be a RETN/RETI
 		if cpu.Interrupt != req {
 			fail("refused request did not stay pending")
 		} else if req.Type != z80.IMType || !bytesEq(req.Data, k.Data) {
